@@ -15,6 +15,7 @@ package merge
 
 import (
 	"fmt"
+	"sort"
 
 	"sigs.k8s.io/structured-merge-diff/v6/fieldpath"
 	"sigs.k8s.io/structured-merge-diff/v6/typed"
@@ -301,11 +302,15 @@ func (s *Updater) addBackOwnedItems(merged, pruned *typed.TypedValue, prunedVers
 	if _, ok := managedAtVersion[prunedVersion]; ok {
 		versions = append(versions, prunedVersion)
 	}
+	first := len(versions)
 	for version := range managedAtVersion {
 		if version != prunedVersion {
 			versions = append(versions, version)
 		}
 	}
+	// The other versions are visited in a fixed order: what the passes leave
+	// behind must not depend on the iteration order of a map.
+	sort.Slice(versions[first:], func(i, j int) bool { return versions[first+i] < versions[first+j] })
 	// A field owned at one version may lie beneath a list item or map entry that
 	// is only owned at another version: it can only come back once that item is
 	// back. With more than one version, repeat the passes until nothing more is
